@@ -8,6 +8,8 @@ package contracts
 import (
 	"encoding/json"
 	"fmt"
+	"os"
+	"strings"
 	"testing"
 
 	"github.com/meshplus/bitxhub-core/governance"
@@ -41,7 +43,7 @@ func TestGovcReplayAccess(t *testing.T) {
 			data, _ := ibtp.Marshal()
 			ok = (&InterchainManager{Stub: stub}).HandleIBTPData(data).Ok
 		case "Governance.ZeroPermission":
-			p := &Proposal{Id: "p-1", Typ: AppchainMgr, Status: REJECTED, StrategyType: ZeroPermission, EventType: governance.EventUpdate, ObjId: "chain0"}
+			p := &Proposal{Id: "p-1", Typ: AppchainMgr, Status: govcReplayZeroStatus(), StrategyType: ZeroPermission, EventType: governance.EventUpdate, ObjId: "chain0"}
 			stub.SetObject(ProposalKey(p.Id), p)
 			stub.effects = 0
 			ok = (&Governance{Stub: stub}).ZeroPermission(p.Id).Ok
@@ -62,4 +64,14 @@ func TestGovcReplayAccess(t *testing.T) {
 	} else {
 		fmt.Println("REPLAY-NOT-CONFIRMED no effect happened")
 	}
+}
+
+// govcReplayZeroStatus: the status of the stored zero-permission proposal in the ZeroPermission scenario.
+// The C15 obligation (a finished proposal is not concluded again) replays with a REJECTED proposal, the
+// C17 obligation (no caller check at all) with one that is still open.
+func govcReplayZeroStatus() ProposalStatus {
+	if strings.Contains(os.Getenv("GOVC_REPLAY_CLAUSE"), "finished-proposal") {
+		return REJECTED
+	}
+	return PROPOSED
 }
